@@ -765,7 +765,9 @@ theorem aok_storeTriggered (R : List Uuid) (C : Chain) (base : Nat) (wf : ChainW
     AOk R C base s0 (storeTriggeredAppointment s node k a d).1 := by
   unfold storeTriggeredAppointment
   cases hdc : a.blob.decrypt d with
-  | none => exact h
+  | none =>
+    obtain ⟨t3, m3⟩ := tinv_delete_norefund s [k] h.tinv
+    exact ⟨t3, by rw [m3]; exact h.txi, by rw [m3]; exact h.re, h.conf.sub (trkSub_deleteAppointments _ _ _)⟩
   | some p =>
     simp only
     obtain ⟨h1, hm1⟩ := tinv_storeAppointment s k a h.tinv hu hk
